@@ -73,10 +73,12 @@ def generate(tier, rng):
             for lt in lifetimes(rng, grid, extra, k):
                 k += 1
                 drv = [rng.randint(0, 8) for _ in range(N)]
-                cases.append(dict(stream="exact" if ex else "tolerance", coq=ex, cls="idsm", grid=grid, gname=gname, extra=extra, lifetime=lt, driver=drv))
+                cases.append(dict(stream="exact" if ex else "tolerance", coq=ex, cls="idsm", grid=grid, gname=gname, extra=extra, lifetime=lt, driver=drv,
+                                  int_dtype=(k % 3 == 0)))
                 for solver in ("manual", "lapack"):
                     stk = [rng.randint(0, 40) for _ in range(N)] if k % 2 else sorted(rng.randint(0, 60) for _ in range(N))
-                    cases.append(dict(stream="exact" if ex else "tolerance", coq=ex, cls="sdsm", solver=solver, grid=grid, gname=gname, extra=extra, lifetime=lt, driver=stk))
+                    cases.append(dict(stream="exact" if ex else "tolerance", coq=ex, cls="sdsm", solver=solver, grid=grid, gname=gname, extra=extra, lifetime=lt, driver=stk,
+                                      int_dtype=(k % 3 != 1)))
             # fixed lifetime (0/1 survival) for the inflow-driven model
             cases.append(dict(stream="exact" if ex else "tolerance", coq=ex, cls="idsm", grid=grid, gname=gname, extra=extra,
                               lifetime=dict(kind="fixed", mean=[3, 7, 12][k % 3], inflow_at="start"), driver=[rng.randint(0, 8) for _ in range(N)]))
@@ -94,7 +96,7 @@ def generate(tier, rng):
                 drv = [rng.randint(0, 8) for _ in range(N)]
                 cases.append(dict(stream="tolerance", coq=False, cls="idsm", grid=grid, gname=gname, extra=extra, lifetime=lt, driver=drv))
                 cases.append(dict(stream="tolerance", coq=False, cls="sdsm", solver=["manual", "lapack"][k % 2], grid=grid, gname=gname,
-                                  extra=extra, lifetime=lt, driver=[rng.randint(5, 40) for _ in range(N)]))
+                                  extra=extra, lifetime=lt, driver=[rng.randint(5, 40) for _ in range(N)], int_dtype=(len(cases) % 2 == 0)))
     return cases
 
 
